@@ -57,6 +57,7 @@ GhostInit(S) ==
     dur      |-> [n \in S |-> <<0, 0, "">>],   \* durable <<CurrentTerm, LastVoteTerm, LastVoteCand>>, tracked write by write
     hpend    |-> [n \in S |-> <<>>],      \* handle lines not yet matched with a state line
     ginc     |-> EmptyFn,                 \* <<voter, term, candidate>> -> the voter's incarnation when it granted
+    hbopen   |-> [n \in S |-> FALSE],     \* a heartbeat has been handed to n and its handler has not returned yet
     fprace   |-> [n \in S |-> FALSE],     \* a heartbeat was handled (fast path) while n's main goroutine is inside a store write
     fsmLast  |-> [n \in S |-> 0],         \* last index handed to the FSM in this epoch
     fsmOpen  |-> [n \in S |-> <<0, 0>>],  \* snapshot last opened
@@ -216,6 +217,18 @@ ExpCfg(lg, sn) ==
   IN IF C # {} THEN <<MaxSet(C), lg[MaxSet(C)][3]>>
      ELSE IF Len(sn) > 0 THEN <<sn[1].cfgidx, sn[1].cfg>> ELSE <<0, NoCfg>>
 
+(* the configuration a server goes by is PHANTOM when its own durable image does not contain it: not the configuration
+   entry at that index of its log, not its newest snapshot's, and not an entry that compaction may have removed (at or
+   below the snapshot index). Votes are then judged against the configuration the image prescribes. *)
+PhantomCfg(o, lg, sn) ==
+  /\ o.cl # NoCfg
+  /\ ~(o.cli \in DOMAIN lg /\ lg[o.cli][2] = "cfg" /\ lg[o.cli][3] = o.cl)
+  /\ ~(Len(sn) > 0 /\ sn[1].cfgidx = o.cli /\ sn[1].cfg = o.cl)
+  /\ o.cli > SnapIdxOf(sn)
+VoterForVote(o, lg, sn, cand) ==
+  /\ (o.cl = NoCfg \/ IsVoter(tab, o.cl, cand))
+  /\ (~PhantomCfg(o, lg, sn) \/ ExpCfg(lg, sn)[2] = NoCfg \/ IsVoter(tab, ExpCfg(lg, sn)[2], cand))
+
 (* ---- step predicates on one handled RPC (pre, request, post, response) ---- *)
 StepPreds(n, h, pre, preLog, post, postLog, postSn) ==
   LET regrant == h.kind = "rv" /\ h.regrant IN
@@ -228,7 +241,7 @@ StepPreds(n, h, pre, preLog, post, postLog, postSn) ==
             THEN {<<"C07", "ConfigurationNotFromLog", <<n, h.id, <<post.cli, post.cl>>, ExpCfg(postLog, postSn)>>>>} ELSE {})
   ELSE IF h.kind = "rv" /\ Has(h, "resp") /\ h.resp.granted THEN
       (IF UpToDate(h.req, LastEntry(pre)) \/ regrant THEN {} ELSE {<<"C06", "GrantNotUpToDate", <<n, h.id, h.req, LastEntry(pre)>>>>})
-      \cup (IF pre.cl = NoCfg \/ IsVoter(tab, pre.cl, h.req.cand) THEN {} ELSE {<<"C06", "GrantNonVoter", <<n, h.id>>>>})
+      \cup (IF VoterForVote(pre, preLog, dsnaps[n], h.req.cand) THEN {} ELSE {<<"C06", "GrantNonVoter", <<n, h.id, pre.cl, ExpCfg(preLog, dsnaps[n])>>>>})
       \cup (IF h.req.term >= pre.term THEN {} ELSE {<<"C06", "GrantOldTerm", <<n, h.id>>>>})
       \cup (IF post.vt = h.req.term /\ post.vc = h.req.cand THEN {} ELSE {<<"C06", "GrantNotDurable", <<n, h.id, post.vt, post.vc>>>>})
   ELSE IF h.kind = "pv" /\ Has(h, "resp") THEN
@@ -236,7 +249,7 @@ StepPreds(n, h, pre, preLog, post, postLog, postSn) ==
        THEN {} ELSE {<<"C06", "PreVoteChangedState", <<n, h.id>>>>})
       \* a pre-vote is only granted to a candidate that could win the real vote here and now: log at least as
       \* up-to-date, a voter, term not behind, and no other leader known (otherwise a stale server can disrupt)
-      \cup (IF ~h.resp.granted \/ (UpToDate(h.req, LastEntry(pre)) /\ (pre.cl = NoCfg \/ IsVoter(tab, pre.cl, h.req.cand))
+      \cup (IF ~h.resp.granted \/ (UpToDate(h.req, LastEntry(pre)) /\ VoterForVote(pre, preLog, dsnaps[n], h.req.cand)
                                      /\ h.req.term >= pre.term /\ (pre.leader = "" \/ pre.leader = h.req.cand))
             THEN {} ELSE {<<"C14", "PreVoteGrantedWrongly", <<n, h.id, h.req, LastEntry(pre), pre.leader>>>>})
   ELSE {}
@@ -317,7 +330,10 @@ DoState(ln) ==
       \* older one; when that write completes the term goes back. Identified by its history: a heartbeat handled while the
       \* main goroutine is parked in a store write, the decrease at the completion of that write.
       busyNow == Has(ln, "busy") /\ ln.busy
+      \* (mirror image: the fast-path handler itself is the one inside the slow write of the term it adopts while the main
+      \* goroutine handles a request of a newer term; the decrease when the heartbeat handler's write completes)
       fpr     == g.fprace[n] \/ (busyNow /\ ln.ev = "state" /\ \E k \in 1..Len(g.hpend[n]) : g.hpend[n][k].kind = "hb")
+                 \/ (busyNow /\ ln.ev = "state" /\ g.hbopen[n] /\ Has(params, "hbfast") /\ params.hbfast)
       vTerm  == (IF post.ct >= pre.ct THEN {} ELSE {<<"C06", (IF fpr THEN "DurableTermDecreasedByFastPathRace" ELSE "DurableTermDecreased"), <<n, pre.ct, post.ct>>>>})
                 \cup (IF sameInc /\ post.term < pre.term THEN {<<"C06", (IF fpr THEN "TermDecreasedByFastPathRace" ELSE "TermDecreased"), <<n, pre.term, post.term>>>>} ELSE {})
                 \cup (IF post.up /\ post.term > post.ct THEN {<<"C06", "TermNotDurable", <<n, post.term, post.ct>>>>} ELSE {})
@@ -425,6 +441,7 @@ DoHandle(ln) ==
                     x \in {y \in twice : y \in DOMAIN g.ginc /\ g.ginc[y] # obs[n].inc}}
 
   IN /\ g' = [g EXCEPT !.hpend[n] = Append(@, [regrant |-> (gr # {} /\ gr \subseteq g.grants)] @@ ln),
+                       !.hbopen[n] = IF ln.kind = "hb" THEN FALSE ELSE @,
                        !.grants = @ \cup gr,
                        !.ginc = [y \in (gr \ DOMAIN @) |-> obs[n].inc] @@ @,
                        !.seenTerm[n] = IF ln.kind \in {"ae", "hb", "is", "rv"} THEN Max(@, ln.req.term) ELSE @,
@@ -437,7 +454,8 @@ DoHandle(ln) ==
      /\ Judge(V, {}) /\ Keep
 
 DoDeliver(ln) ==  \* a request was handed to ln.n: from now on it knows the sender's term
-  /\ g' = [g EXCEPT !.seenTerm[ln.n] = IF ln.kind \in {"ae", "hb", "is", "rv"} THEN Max(@, ln.term) ELSE @]
+  /\ g' = [g EXCEPT !.seenTerm[ln.n] = IF ln.kind \in {"ae", "hb", "is", "rv"} THEN Max(@, ln.term) ELSE @,
+                    !.hbopen[ln.n] = IF ln.kind = "hb" THEN TRUE ELSE @]
   /\ Quiet /\ Keep
 
 DoReply(ln) ==   \* a response reached the caller ln.n from ln.dst
